@@ -34,4 +34,7 @@ def IsRounded (m : RoundMode) (a b q : Int) : Prop :=
     (2 * (q * b - a)).natAbs ≤ b.natAbs ∧
     ((2 * (q * b - a)).natAbs = b.natAbs → (q * b).natAbs > a.natAbs)
 
+instance (m : RoundMode) (a b q : Int) : Decidable (IsRounded m a b q) := by
+  cases m <;> unfold IsRounded <;> exact inferInstance
+
 end Cnl.Spec
